@@ -12,7 +12,7 @@ let ev_s = function
 
 (* does thread k still have a step to make? *)
 let has_step (s : cpst) k =
-  if k = 0 then (match s.lp.lt_stage, s.lp.lt_ops with LDrain, _ -> true | LIdle, [] -> false | LIdle, _ -> true)
+  if k = 0 then (match s.lp.lt_stage, s.lp.lt_ops with LIdle, [] -> false | _ -> true)
   else match List.nth_opt s.thr (k - 1) with
     | Some t -> t.pt_closing || t.pt_ops <> []
     | None -> false
@@ -20,12 +20,14 @@ let has_step (s : cpst) k =
 let handle line =
   match String.split_on_char '|' line with
   | [nd; progs; sched] ->
-      let nd = int_of_string (String.trim nd) in
+      let hw = List.map int_of_string (words nd) in
+      let nd = List.hd hw in
+      let cbp = (match hw with _ :: c :: _ -> c | _ -> 0) in
       let progs = List.map (fun p -> prog_of (String.trim p)) (String.split_on_char ';' progs) in
       let sched = List.filter_map (fun c -> if c >= '0' && c <= '9' then Some (Char.code c - 48) else None)
           (List.init (String.length sched) (String.get sched)) in
       let n = List.length progs + 1 in
-      let s = ref (cp_init progs (nat_of_int (nd + 3))) in
+      let s = ref (cp_init progs (nat_of_int (nd + 3)) (nat_of_int cbp)) in
       List.iter (fun k -> if k < n then s := cp_step !s (nat_of_int k)) sched;
       (* finalisation as in the harness: pingers first (index order), then the loop thread *)
       let guard = ref 0 in
